@@ -48,22 +48,25 @@ def gen_case(r, cid, source, chain, n=None, term=None, nt=None, cs=None):
         ";".join(ops), term, k3.AVAIL, ",".join(map(str, sched)) if sched else "-")
 
 
-def run_isolated(binpath, lines, batch=40):
-    """runs the canary harness in child processes; a batch that dies is re-run case by case"""
+def run_isolated(binpath, lines, batch=40, tmo_batch=600, tmo_single=60):
+    """runs the canary harness in child processes; a batch that dies or hangs is re-run case by case"""
     out = [None] * len(lines)
     for b in range(0, len(lines), batch):
         chunk = lines[b:b + batch]
-        p = subprocess.run([binpath, "tok"], input="\n".join(chunk) + "\n", stdout=subprocess.PIPE,
-                           stderr=subprocess.PIPE, text=True, errors="replace", env=ENV, timeout=600)
-        got = p.stdout.split("\n")[:-1]
-        if p.returncode == 0 and len(got) == len(chunk):
-            for k, g in enumerate(got):
-                out[b + k] = g
-            continue
+        try:
+            p = subprocess.run([binpath, "tok"], input="\n".join(chunk) + "\n", stdout=subprocess.PIPE,
+                               stderr=subprocess.PIPE, text=True, errors="replace", env=ENV, timeout=tmo_batch)
+            got = p.stdout.split("\n")[:-1]
+            if p.returncode == 0 and len(got) == len(chunk):
+                for k, g in enumerate(got):
+                    out[b + k] = g
+                continue
+        except subprocess.TimeoutExpired:
+            pass
         for k, line in enumerate(chunk):
             try:
                 q = subprocess.run([binpath, "tok"], input=line + "\n", stdout=subprocess.PIPE,
-                                   stderr=subprocess.PIPE, text=True, errors="replace", env=ENV, timeout=60)
+                                   stderr=subprocess.PIPE, text=True, errors="replace", env=ENV, timeout=tmo_single)
                 g = q.stdout.split("\n")[:-1]
                 if q.returncode != 0 or not g:
                     out[b + k] = "<crash rc=%s %s>" % (q.returncode, q.stderr[-200:].replace("\n", " "))
@@ -167,6 +170,38 @@ def run_k6(tier, seed):
                 res["mismatch"].append({"case": c, "impl": af.get("res"), "model": mf.get("res")})
         if len(res["samples"]) < 6:
             res["samples"].append({"case": c[-120:], "impl": a[:160]})
+    # --- injected panics of the reduce operator (a user closure of the terminal): on its k-th call,
+    # or whenever it is called on the calling thread (the step that combines the workers' results)
+    rcases = []
+    for c in cases:
+        cf = k3.fields(c)
+        if cf["term"].split(":")[0] != "red":
+            continue
+        n_in = 0 if cf["in"] == "-" else len(cf["in"].split(","))
+        if n_in < 2:
+            continue
+        for rp in (["caller", "n:0"] if tier == "quick" else ["caller", "n:0", "n:1", "n:3", "n:7"]):
+            rcases.append(c + " rpanic=" + rp + (" delay=200" if n_in <= 40 else " delay=20"))
+    res["reduce_panic_cases"] = len(rcases)
+    res["reduce_panic_fired"] = 0
+    rimpl = run_isolated(bins["k3"], rcases, batch=40, tmo_batch=40, tmo_single=10)
+    for c, a in zip(rcases, rimpl):
+        res["total"] += 1
+        if a is None or a.startswith("<"):
+            res["c14"].append({"case": c, "what": "the reduce operator panicked and the call hung or the process aborted instead of panicking",
+                               "observed": a})
+            continue
+        af = k3.fields(a)
+        if af.get("res") == "unsupported":
+            continue
+        if af.get("redfired") == "1":
+            res["reduce_panic_fired"] += 1
+            if af.get("res") != "P":
+                res["c14"].append({"case": c, "what": "the reduce operator panicked but the call returned a value",
+                                   "returned": af.get("res")})
+        if int(af["multi"]) or int(af["bad"]):
+            res["c14"].append({"case": c, "what": "unwinding from a panicking reduce operator dropped a value twice or dropped never-initialised memory",
+                               "dropped_more_than_once": int(af["multi"]), "bad_drops": int(af["bad"])})
     with open(cpath, "w") as f:
         json.dump(res, f)
     return res
